@@ -14,6 +14,10 @@ package cisco
 // answer to a password prompt; typed at the exec prompt it would be echoed by
 // the device and logged as a command in the .login file
 //vc:  assert[C17] at "waitPrompt(pass,"#2 @secretOnlyAtPasswordPrompt strings.HasSuffix(strings.ToLower(out), "password:")
+// C06: the text the banner pattern is matched against is collected without
+// the last line of each answer (the ssh or device prompt, which shows the user
+// name or the host name and could satisfy the pattern without any banner)
+//vc:  assert[C06] at "addBanner(out)"#* @promptLineNotPartOfBanner true
 //vc:  ensures[C06] markerMissing ==> len(s.errUnmanaged) > 0
 //vc:  ensures[C09] @unmanagedErrorNotNil isnil(old(s.errUnmanaged)) && !isnil(s.errUnmanaged) ==> len(s.errUnmanaged) > 0 && s.errUnmanaged[0] != nil
 
